@@ -44,6 +44,8 @@ def r4_1(ctx):
         T, W, F = s.task, s.worker, s.facility
         kind = "facility" if F is not None else "worker-only"
         kinds.add(kind)
+        if isinstance(F, Obj) and F.name.startswith("<None>."):
+            continue   # the path on which the task has no component: reading its placed_workplace raises AttributeError before this site
         con = construct(f, f"site-{kind}")
         ctx.instance(f"{con}#{i}", cells=8, sample={"loc": e.loc, "kind": kind, "facts": sorted(k for k, v in e.facts.items() if v[0] is True and "<" in k)[:8]})
         if not (isinstance(W, Obj) and isinstance(T, Obj)):
@@ -184,6 +186,8 @@ def r4_2(ctx):
     for c in cfgs:
         got = car_run(ctx, f, c)
         exp = car_expected(c)
+        if not got or any(not isinstance(x, bool) for x in got):
+            raise AnalysisError(f"R4.2: can_add_resources is not decided for {c}: {sorted(map(str, got))[:3]}")
         n_true += exp
         if True in got and not exp:
             why = [k for k in c if c[k] != base_nf.get(k) and k != "fac"]
